@@ -713,6 +713,7 @@ let s7_case (c : case) : unit =
   let cfg = config_of h in
   let v = cfg.c_version in
   let hp = ref (heap_init v) in
+  let muts = ref [] in     (* State::mutated according to the model (Heap.step_mut), newest first *)
   let ok = ref true and step = ref 0 and live = ref None in
   let diff what detail = if !ok then Printf.printf "DIFF %s step=%d s7-%s %s\n" c.id !step what detail; ok := false in
   let cells_arr () = Array.of_list !hp.cells in
@@ -726,9 +727,9 @@ let s7_case (c : case) : unit =
         incr step;
         let tok = if ph = "B" then lex_exact (bytes_of_hex orig) else Some (op_of_rust chosen, A0) in
         (match tok with
-         | Some t -> hp := heap_step v !hp t
+         | Some t -> muts := List.rev_append (List.map int_of_nat (step_mut !hp t)) !muts; hp := heap_step v !hp t
          | None -> if orig <> "-" then diff "lex" ("cannot decode " ^ orig))
-    | ["ALIAS"; stk; memo; edges] ->
+    | "ALIAS" :: stk :: memo :: edges :: rest ->
         (* implementation: Rc identities of the roots numbered by first appearance (stack bottom to top, memo by key) *)
         let ints s = if s = "-" then [] else List.map int_of_string (String.split_on_char ',' s) in
         let impl_roots = ints stk @ (if memo = "-" then [] else List.map (fun e -> int_of_string (List.nth (String.split_on_char ':' e) 1)) (String.split_on_char ',' memo)) in
@@ -752,21 +753,29 @@ let s7_case (c : case) : unit =
             | _ -> ()) impl_edges;
           if Hashtbl.length impl_nodes <> Hashtbl.length seen || List.length impl_edges <> Hashtbl.length edges_m then
             diff "graph" (Printf.sprintf "reachable cells/edges impl=%d/%d model=%d/%d" (Hashtbl.length impl_nodes) (List.length impl_edges)
-                            (Hashtbl.length seen) (Hashtbl.length edges_m))
+                            (Hashtbl.length seen) (Hashtbl.length edges_m));
+          (* the registry of cells modified in place: entries in total, entries whose cell is reachable from the roots *)
+          (match rest with
+           | [m] when String.length m > 2 && String.sub m 0 2 = "m=" ->
+               let model_m = Printf.sprintf "m=%d:%d" (List.length !muts) (List.length (List.filter (Hashtbl.mem seen) !muts)) in
+               if m <> model_m then diff "registry" (Printf.sprintf "cells registered as modified in place (total:reachable) impl=%s model=%s" m model_m)
+           | _ -> diff "registry" "the ALIAS record carries no registry field (State::mutated is not reported)")
         end
     | ["LIVE"; b; a] -> live := Some (int_of_string b, int_of_string a)
     | _ -> ()) c.lines;
-  let cyc = has_cycle !hp.cells in
+  (* what reset()/Drop leave behind according to the model: the cell table with every registered cell emptied;
+     proofs/ReleaseP.final_cells_acyclic says it never has a cycle, so nothing may stay allocated *)
+  let cyc_during = has_cycle !hp.cells in
+  let cyc_after = has_cycle (release !hp.cells (List.rev_map nat_of_int !muts)) in
+  if cyc_after then diff "release" "the model's released cell graph still has a cycle (contradicts ReleaseP.final_cells_acyclic)";
   (match !live with
    | Some (b, a) ->
        let leaked = a - b in
-       if leaked <> 0 && cyc then
-         Printf.printf "PROP %s C14 fail leak of %d bytes after reset and drop: reference cycle (a container inserted into itself - known class)\n" c.id leaked
-       else if leaked <> 0 then
-         Printf.printf "PROP %s C14 fail leak of %d bytes after reset and drop although the cell graph of the aliasing model is acyclic\n" c.id leaked
-       else if cyc then diff "leak-prediction" "the model's cell graph has a cycle but no byte stayed allocated"
+       if leaked <> 0 then
+         Printf.printf "PROP %s C14 fail leak of %d bytes after reset and drop (%s)\n" c.id leaked
+           (if cyc_during then "the objects of this pickle form a reference cycle; the model's release breaks it" else "no reference cycle among the objects of this pickle in the aliasing model")
    | None -> diff "live" "no LIVE line");
-  if !ok then Printf.printf "OK7 %s cells=%d cycle=%b\n" c.id (List.length !hp.cells) cyc
+  if !ok then Printf.printf "OK7 %s cells=%d cycle=%b\n" c.id (List.length !hp.cells) cyc_during
 
 let () =
   match Array.to_list Sys.argv with
